@@ -329,6 +329,7 @@ def c17(ctx, rep):
 def c18(ctx, rep):
     _r(output_rules.rule_dot_full, ctx, rep)
     _r(output_rules.rule_dot_subroutines, ctx, rep)
+    _r(output_rules.rule_dot_subroutine_files, ctx, rep)
     _r(output_rules.rule_path_highlight, ctx, rep)
     _r(output_rules.rule_context_annotations, ctx, rep)
     _r(output_rules.rule_json_envelope, ctx, rep)
